@@ -41,7 +41,7 @@ head = sh("git -C /repo rev-parse --short HEAD")[1].strip()
 results = []
 try:
     for pid in ids:
-        for md in sorted(glob.glob(f"/tmp/seed/{pid}.out/m*")):
+        for md in sorted([d for d in glob.glob(f"/tmp/seed/{pid}.out/m[0-9]") if os.path.isdir(d)]):
             k = os.path.basename(md)
             dest = f"{V}/seeded/{pid}-{k}"
             if os.path.exists(dest + "/meta.json") and "--force" not in sys.argv:
